@@ -48,6 +48,9 @@ SEEDS = [
     "query Q($a: [Int!]!, $m: [[Int]!]) { lst(xs: $a, m: $m) }",
     "query Q($m: [[Int!]!]!, $p: [P!]!) { ...LF } fragment LF on Query { lst(m: $m, ps: $p) }",
     "query Q($i: [Int]!) { lst(m: [$i, [1]]) }",
+    # subscriptions: one root field, any number of selections below it, reached through fragments too
+    "subscription S { tick { id a name peer { id name } } }",
+    "subscription S($n: Int = 1) { ...SR } fragment SR on Subscription { ... on Subscription { t: tick(n: $n) { id ...TA } } } fragment TA on A { a name }",
     # aliases named like *other* fields of the same parent type, whose same-named arguments have other types
     "query Q($x: String, $i: Int!) { need: hello(x: $x) hello: need(x: $i) echo: a { id echo: name } }",
     "query Q($x: String) { ...AF } fragment AF on Query { need: hello(x: $x, n: 2) num }",
